@@ -113,6 +113,7 @@ pub fn run_history(tr: &mut Trace, c: &Conc, t: i32, with_shx: bool, hist: &str,
 /// the same history on files created by path (BufWriter<File>): what is on disk after each
 /// finalize and after drop must be complete; I/O of individual calls cannot be observed
 pub fn run_history_path(tr: &mut Trace, c: &Conc, t: i32, hist: &str, syms: &Syms, prop: &str, path: &std::path::Path) {
+    crate::cmd_codec::prepopulate(path);
     let w = match ShapeWriter::from_path(path) {
         Ok(w) => w,
         Err(_) => return,
